@@ -20,7 +20,9 @@ RULE = ("Hypothesis draws (prior table contents, new table, operation todb/appen
         "(appenddb). Fault oracle: whether the call raises the injected exception (of a generated standard type: plain, "
         "TypeError, ValueError, KeyError, IndexError, AttributeError, OSError) or returns, before the harness touches the "
         "caller's connection a fresh connection reads exactly the prior contents. Non-trivial = prior contents non-empty, new table "
-        "has >=2 rows (so a fault index lies strictly inside the data). Distinct by digest of the case.")
+        "has >=2 rows (so a fault index lies strictly inside the data). Sub 'sequences': 2-4 loads (todb/appenddb, commit flag each) through ONE "
+        "caller-owned connection / cursor / cursor factory against a model of the table; after every call a fresh connection "
+        "sees the last durable state (everything staged so far once a committing load has run). Distinct by digest of the case.")
 ASSUMPTIONS = [
     "sqlite3 is the only DB-API driver present; tables are created by the harness with untyped columns",
     "rows have the table's arity (a malformed row is a driver error, not a failing source)",
@@ -183,6 +185,63 @@ def check_large(case, ctx):
     return check(c, ctx)
 
 
+# ---- several loads through ONE caller-owned handle ------------------------------------------------------------------
+@st.composite
+def seq_case(draw, tier):
+    nf = draw(st.integers(1, 2))
+    hdr = ["a", "b"][:nf]
+    row = st.lists(SCELL, min_size=nf, max_size=nf)
+    loads = [[draw(st.sampled_from(["todb", "appenddb", "appenddb"])), draw(st.lists(row, max_size=3)), draw(st.booleans())]
+             for _ in range(draw(st.integers(2, 4)))]
+    return {"header": hdr, "prior": draw(st.lists(row, max_size=2)), "loads": loads,
+            "handle": draw(st.sampled_from(["connection", "cursor", "cursorfn"]))}
+
+
+def check_seq(case, ctx):
+    """Model: the table's contents after each load (todb replaces, appenddb extends).  commit=False stages a load in the
+    caller's transaction; the next commit=True load (or the caller's own commit) makes everything staged so far durable.
+    A fresh connection must see the last durable state after every call."""
+    hdr, handle = case["header"], case["handle"]
+    tmp = ctx.tmpdir()
+    path = os.path.join(tmp, "seq.sqlite")
+    _mkdb(path, hdr, case["prior"])
+    con = sqlite3.connect(path)
+    cur = con.cursor()
+    dbo = con if handle == "connection" else cur if handle == "cursor" else (lambda: con.cursor())
+    contents = [tuple(r) for r in case["prior"]]
+    durable = list(contents)
+    ctx.label("handle:" + handle, "loads:%d" % len(case["loads"]))
+    flags = [c for _, _, c in case["loads"]]
+    ctx.nontrivial(any(not a and b for a, b in zip(flags, flags[1:])))   # a staged load followed by a committing one
+    try:
+        for i, (op, rows, commit) in enumerate(case["loads"]):
+            fn = etl.todb if op == "todb" else etl.appenddb
+            try:
+                fn([list(hdr)] + [list(r) for r in rows], dbo, "t", commit=commit)
+            except Exception as ex:
+                return exc_fail("sequence/%s/%s" % (op, handle), ex)
+            contents = ([] if op == "todb" else contents) + [tuple(r) for r in rows]
+            if commit:
+                durable = list(contents)
+            try:
+                seen = _read(path)
+            except Exception as ex:
+                return Fail("sequence/%s/fresh-connection-blocked" % handle, "after load %d: %r" % (i, ex))
+            if not codec.strict_eq(seen, durable):
+                return Fail("sequence/%s/%s" % (handle, "staged-work-lost" if commit else "visible-before-commit"),
+                            "after load %d of %r (prior %r) via one %s a fresh connection sees %r, expected %r"
+                            % (i, case["loads"], case["prior"], handle, seen, durable))
+        con.commit()
+        seen = _read(path)
+        if not codec.strict_eq(seen, contents):
+            return Fail("sequence/%s/final" % handle, "after %r (prior %r) and the caller's commit a fresh connection sees %r, expected %r"
+                        % (case["loads"], case["prior"], seen, contents))
+    finally:
+        con.close()
+    return None
+
+
 SUBS = [Sub("loads", check, strategy=case, quick=2400, thorough=40000),
+        Sub("sequences", check_seq, strategy=seq_case, quick=600, thorough=8000),
         Sub("large", check_large, enumerate=large_cases)]
 KNOWN = {}
